@@ -427,7 +427,7 @@ fn long_programs<G: GroupApi>(run: &Run) {
 }
 pub fn meta(run: &Run) -> Meta {
     Meta {
-        rule: "bfs: register machines (A, B : G ; s : Fr) for G1 and for G2 from (G, O, 1) over 29 operations (add, sub, neg, scalar \
+        rule: "bfs: register machines (A, B : G ; s : Fr) for G1 and for G2 from (G, O, 1) over 25 operations (add, sub, neg, scalar \
                multiplication by s and by the constants {0,1,2,r-1} on either side, normalize, affine round trip, encode/decode in three \
                formats, swap, reset, scalar updates); exact-state de-duplication on all coordinates; in every state: denoted points equal the \
                reference multiples of the tracked discrete logs, is_zero, == in both orders, all three encodings equal those of a fresh \
